@@ -1,4 +1,4 @@
-"""C11: ALU table constraints — value-exact correspondence of AluAir::eval with the Lean model
+"""C11: table constraints (ALU, Const/Public, recompose, Poseidon circuit tables' control part) — value-exact correspondence of AluAir::eval with the Lean model
 on random windows, relation oracle on structured rows and on scheduled honest traces with
 single-cell tampering."""
 import json, os
@@ -73,19 +73,69 @@ def run(ctx):
                         "replay": {"correspondence": "scheduled preprocessed matrix", "case": (scases[k] if k < len(scases) else "")[:4000],
                                    "impl": (a or "")[:1500], "model": (b or "")[:1500]},
                         "no_input": True})
+    # Poseidon circuit tables, control part: real Poseidon2CircuitAir / Poseidon1CircuitAir eval vs
+    # lean/P3R/Model/PoseidonCtl.lean, honest chains + tamper oracle (harness/src/c11p.rs)
+    n_pos, n_chain, pt = (2400, 260, 10) if tier == "quick" else (120000, 12000, 20)
+    rc, o = ctx["sh"]([ctx["harness"], "poseidonctl", "--seed", str(seed), "--cases", str(n_pos), "--chains", str(n_chain),
+                       "--tampers", str(pt), "--out", out], timeout=7200)
+    pos_cov = {}
+    if rc != 0:
+        violations.append({"class": "harness-crash", "what": f"harness poseidonctl exited {rc}: {o[-300:]}", "replay": {}, "no_input": True})
+    else:
+        rep = json.load(open(f"{out}/poseidonctl.report.json"))
+        evals += rep["evaluations"]; distinct += rep["distinct"]
+        for k, v in rep["hist"].items():
+            hist["poseidon." + k] = hist.get("poseidon." + k, 0) + v
+        samples += rep["samples"][:2]
+        seen_cls = {}
+        for v in rep["violations"]:
+            # one entry per class is enough for the classification; keep the first three of each
+            seen_cls[v["class"]] = seen_cls.get(v["class"], 0) + 1
+            if seen_cls[v["class"]] <= 3:
+                violations.append({"class": v["class"], "what": v["kind"] + (" " + ",".join(v.get("facts", [])) if v.get("facts") else ""), "replay": v["replay"]})
+        with open(f"{out}/poseidonctl.cases") as fin:
+            rc, mo = ctx["sh"]([ctx["driver_dir"] + "/p3r_driver_c11p"], stdin=fin, timeout=3600)
+        open(f"{out}/poseidonctl.model", "w").write(mo)
+        impl = read_lines(f"{out}/poseidonctl.impl"); model = read_lines(f"{out}/poseidonctl.model"); cases = read_lines(f"{out}/poseidonctl.cases")
+        blocks += len(cases)
+        pd = 0
+        if len(impl) != 2 * len(cases) or len(model) != 2 * len(cases):
+            disagreements += 1
+            violations.append({"class": "model-disagreement",
+                "what": f"correspondence Poseidon circuit AIR eval vs lean/P3R/Model/PoseidonCtl: stream lengths differ (cases {len(cases)}, impl {len(impl)}, model {len(model)})",
+                "replay": {"correspondence": "Poseidon circuit AIR control constraints on a window"}, "no_input": True})
+        else:
+            for k in range(len(cases)):
+                a = impl[2 * k:2 * k + 2]; b = model[2 * k:2 * k + 2]
+                if a[0].startswith("panic"):
+                    continue   # the real eval panicked: reported by the harness with the window as replay
+                if a != b:
+                    disagreements += 1; pd += 1
+                    if pd <= 3:
+                        which = 0 if a[0] != b[0] else 1
+                        ai = a[which].split(); bi = b[which].split()
+                        pos = next((j for j, (x, y) in enumerate(zip(ai, bi)) if x != y), min(len(ai), len(bi)))
+                        violations.append({"class": "model-disagreement",
+                            "what": "correspondence Poseidon2CircuitAir/Poseidon1CircuitAir::eval (control part) vs lean/P3R/Model/PoseidonCtl no longer checks "
+                                    f"({'constraint' if which == 0 else 'interaction'} #{pos - 1} differs, layout {' '.join(cases[k].split()[1:8])})",
+                            "replay": {"correspondence": "Poseidon circuit AIR control constraints / interactions on a window", "case": cases[k][:6000],
+                                       "first_diff_index": pos - 1, "impl": a[which][:1200], "model": b[which][:1200]},
+                            "no_input": True})
+        pos_cov = {"windows": rep["windows"], "tamper_evaluations": rep["tamper_evaluations"], "constraint_counts": rep["constraint_counts"], "accepted_invalid_or_panic_by_class": rep.get("violation_counts", {}),
+                   "window_disagreements": pd}
     cov = {"evaluations": evals, "distinct_nontrivial": distinct,
            "rule": "windows over D in {1,2,4,5(quintic),8}, lanes 1..3, K_max 2..6: fully random (dense/sparse selectors) for polynomial "
                    "identity, structured valid/invalid rows judged with p3-field extension arithmetic; scheduled honest traces built by the "
                    "real AluAir (packed Horner arities 1..K_max) with single-cell tampering judged by an independent relation decoder; "
                    "distinct = distinct window texts",
            "samples": samples, "input_distribution": hist,
-           "traces_validated_against_impl": blocks, "disagreements_checked": disagreements}
+           "traces_validated_against_impl": blocks, "disagreements_checked": disagreements, "poseidon_control": pos_cov}
     return violations, cov
 
 
 CHECK = {
-    "lean_modules": ["P3R.Props.C11", "P3R.Props.C11Packed", "P3R.Props.C11Sched"],
-    "lean_exes": ["p3r_driver_c11"],
+    "lean_modules": ["P3R.Props.C11", "P3R.Props.C11Packed", "P3R.Props.C11Sched", "P3R.Props.C11P", "P3R.Witness.C11P"],
+    "lean_exes": ["p3r_driver_c11", "p3r_driver_c11p"],
     "theorems": ["P3R.C11.laneAdd_iff", "P3R.C11.laneEq_iff", "P3R.C11.laneMulAdd_iff", "P3R.C11.laneBool_iff",
                  "P3R.C11.hornerSingle_iff", "P3R.C11.lane_zero_sel", "P3R.C11.send_accepts_every_row", "P3R.C11.send_value_is_main_cell", "P3R.C11.sep_out_zero", "P3R.C11.extMulBinomial_eval_D2",
                  "P3R.C11.extMulBinomial_eval_D4", "P3R.C11.extMulBinomial_eval_D5", "P3R.C11.extMulBinomial_eval_D8", "P3R.C11.extMulQuintic_eval", "P3R.C11.packed2_iff", "P3R.C11.packed3_iff",
@@ -93,16 +143,31 @@ CHECK = {
                  "P3R.C11.packedLegs_one_succ", "P3R.C11.packedLegs_sound", "P3R.C11.packedLegs_complete", "P3R.C11.packed_row_sound",
                  # the Horner schedule (model of compute_schedule, tied to the real AluAir every run): packing preserves the bus
                  "P3R.C11.packed_net", "P3R.C11.sched_net", "P3R.C11.computeSchedule_tested", "P3R.C11.splitChains_cover",
-                 "P3R.C11.computeSchedule_cover", "P3R.C11.schedule_preserves_bus"],
+                 "P3R.C11.computeSchedule_cover", "P3R.C11.schedule_preserves_bus",
+                 # Poseidon circuit tables, control part (model lean/P3R/Model/PoseidonCtl.lean, every D / width parameter)
+                 "P3R.C11P.boolCons_iff", "P3R.C11P.chainCons_iff", "P3R.C11P.chainCons_iff'", "P3R.C11P.chainTagCons_iff", "P3R.C11P.startCons_iff",
+                 "P3R.C11P.accCons2_iff", "P3R.C11P.accCons2_reset", "P3R.C11P.accCons2_not_merkle", "P3R.C11P.accCons2_last_window",
+                 "P3R.C11P.accCons4_iff", "P3R.C11P.accCons4_reset",
+                 "P3R.C11P.accChain2_iff", "P3R.C11P.accChain2_last", "P3R.C11P.binVal_split", "P3R.C11P.binVal_cast",
+                 "P3R.C11P.accChain4_iff", "P3R.C11P.sumsOf4_getLast", "P3R.C11P.quadVal_cast",
+                 "P3R.C11P.spongeChain_iff", "P3R.C11P.merklePlace_iff", "P3R.C11P.arity4Hot_onehot", "P3R.C11P.arity4Place_iff",
+                 "P3R.C11P.generic_window_iff", "P3R.C11P.zero_prep_accepts", "P3R.C11P.generic_chain_start_free", "P3R.C11P.compact_start_iff",
+                 "P3R.Witness.C11P.acc_start_free", "P3R.Witness.C11P.acc_start_honest", "P3R.Witness.C11P.exposed_index_is_bits_false",
+                 "P3R.Witness.C11P.new_start_limb_free", "P3R.Witness.C11P.new_start_limb_free_bus", "P3R.Witness.C11P.compact_start_rejects"],
     "run": run,
-    "trusted_base": ["the Poseidon1/Poseidon2 circuit AIRs are not modelled here (C06 models the sponge-chaining constraints of the compact D=1 table); Const / Public (WitnessSendAir) and recompose tables are modelled (no constraints, interactions) and compared value-by-value like the ALU table"],
-    "assumptions": ["packed Horner legs are proved for every arity at D = 1 (packedLegs_sound/complete); for packed legs at D > 1 the tie is the value-exact correspondence and the tamper oracle only"],
+    "trusted_base": ["Const / Public (WitnessSendAir) and recompose tables are modelled (no constraints, interactions) and compared value-by-value like the ALU table",
+                     "Poseidon2 / Poseidon1 circuit tables: the control part of eval (sponge chaining, Merkle placement arity 2 / 4, index accumulator, booleanity, "
+                     "compact D=1 capacity / length-tag constraints, every WitnessChecks interaction) is modelled (lean/P3R/Model/PoseidonCtl.lean) and compared value-by-value; "
+                     "the permutation's own round constraints (inner p3-poseidon2-air / p3-poseidon1-air eval) are an uninterpreted relation: they are identified as the tail of the "
+                     "recorded constraint list, checked equal to the inner AIR evaluated alone on the permutation columns, and stripped"],
+    "assumptions": ["packed Horner legs are proved for every arity at D = 1 (packedLegs_sound/complete); for packed legs at D > 1 the tie is the value-exact correspondence and the tamper oracle only",
+                    "Poseidon tables: outputs = Perm(inputs) is not modelled; the honest-chain / tamper oracle decides it with the real one-row trace generator"],
 }
 
 MANIFEST_ENTRY = {
     "property_id": "C11", "quick_cmd": "bin/check C11 --tier quick", "thorough_cmd": "bin/check C11 --tier thorough",
     "evidence_file": "evidence/C11.json", "replay_cmd_template": "bin/check C11 --replay {path}", "engine": "lean-models",
     "technique": "Lean 4 iff-theorems over a model of AluAir::eval + value-exact correspondence with a recording AirBuilder",
-    "level_claimed": {"category": "proof", "text": "per-kind row iff theorems (all D), extension product specs (binomial D=2,4,5,8, quintic trinomial), packed Horner legs of every arity (D=1: packedLegs_sound / packedLegs_complete over the model function itself); the model's constraint and interaction values equal the real AluAir::eval's on random windows for every configuration; relation oracles on structured rows and tampered scheduled traces.", "design_ref": "4/C11"},
-    "level_note": "ALU, Const/Public and recompose tables modelled; Poseidon AIRs not modelled; packed arities at D>1 by correspondence only",
+    "level_claimed": {"category": "proof", "text": "per-kind row iff theorems (all D), extension product specs (binomial D=2,4,5,8, quintic trinomial), packed Horner legs of every arity (D=1: packedLegs_sound / packedLegs_complete over the model function itself); the model's constraint and interaction values equal the real AluAir::eval's on random windows for every configuration; relation oracles on structured rows and tampered scheduled traces. Poseidon2/Poseidon1 circuit tables (control part): accumulator recurrence = running binary / base-4 value of the bits from the reset row (accChain2_iff, accChain4_iff, binVal_cast), chaining and Merkle placement iff theorems for every D / width, whole generic window (generic_window_iff), zero-selector rows accept everything; model = real eval on random and honest windows of 11 configurations; honest chains from the real trace generator with single-cell tampering judged by an operation decoder; negation witnesses for the accepted-invalid rows (known findings).", "design_ref": "4/C11"},
+    "level_note": "ALU, Const/Public, recompose tables and the control part of the Poseidon2/Poseidon1 circuit tables modelled (permutation rounds uninterpreted); packed arities at D>1 by correspondence only",
 }
